@@ -6,4 +6,13 @@ ShapesSmall == { <<2, 3>>, <<6, 2>>, <<1, 9>> }
 ShapesAll   == { <<0, 3>>, <<1, 1>>, <<1, 65>>, <<2, 1>>, <<2, 9>>, <<3, 5>>, <<4, 3>>, <<5, 2>>, <<6, 1>>, <<6, 3>>, <<2, 0>>, <<6, 0>> }
 OpsC04 == { "newroot", "newstruct", "setdata", "setptr", "newlist", "newcomp", "setelem", "setplist", "settext" }
 OpsAll == OpsC04 \cup { "setstruct", "copyfrom", "setroot" }
+SizesTiny == { <<1, 1>> }
+ShapesTiny == { <<2, 3>>, <<6, 1>> }
+OpsCopy == { "newroot", "newstruct", "setptr", "newlist", "setelem", "setstruct", "copyfrom", "newcomp", "settext" }
+NoPlan == <<>>
+\* build something with handles, link it, copy it, then mutate either side (C16 independence)
+PlanCopy == << {"newroot"}, {"newstruct", "newcomp"}, {"newlist", "newstruct"}, {"setptr", "setplist", "settext"},
+               {"setstruct", "copyfrom", "setptr", "setroot"}, {"setelem", "setdata", "settext", "setptr"} >>
+PlanCopy2 == << {"newroot"}, {"newroot", "newstruct"}, {"newlist", "newcomp"}, {"setptr", "setplist"}, {"setptr", "setdata", "setelem"},
+                {"setstruct", "copyfrom", "setptr", "setroot"}, {"setelem", "setdata", "settext", "setptr"} >>
 ====
